@@ -130,15 +130,15 @@ Definition walked (L : lit) (st : pstate) : Prop :=
   forall id w, wget (ps_watch st) id = Some w ->
     (fst w = L -> plit_true st (snd w) = true) /\ (snd w = L -> plit_true st (fst w) = true).
 
-Theorem visit_list_complete L level : forall ids kept st st',
+Theorem visit_list_complete L level : forall ids kept st st' r,
   WalkInv db L ids kept st -> CWalk L ids kept st -> tnodup st -> plit_false st L = true ->
-  visit_list db L level ids kept st = Some (st', None) ->
-  Inv2 st' /\ PIdx st' /\ WComp (ps_watch st') (ps_lists st') /\ ps_pidx st' = ps_pidx st /\ walked L st'.
+  visit_list db L level ids kept st = Some (st', r) ->
+  Inv2 st' /\ PIdx st' /\ WComp (ps_watch st') (ps_lists st') /\ ps_pidx st' = ps_pidx st /\ (r = None -> walked L st').
 Proof.
-  induction ids as [|id rest IH]; intros kept st st' HW HC Hnd HL H; cbn [visit_list] in H.
-  - inversion H. subst st'. clear H. destruct HC as [C1 C2 C3 C4 C5]. rewrite app_nil_r in C4.
+  induction ids as [|id rest IH]; intros kept st st' r HW HC Hnd HL H; cbn [visit_list] in H.
+  - inversion H. subst st' r. clear H. destruct HC as [C1 C2 C3 C4 C5]. rewrite app_nil_r in C4.
     split; [apply (inv2_transfer st); [intros l Q; eapply (pfalse_ext st); eauto; reflexivity | reflexivity | exact C1]|].
-    split; [exact C2|]. split; [|split; [reflexivity|]].
+    split; [exact C2|]. split; [|split; [reflexivity | intros _]].
     + intros id w Hw. cbn [ps_watch ps_lists] in *.
       assert (G : forall X, (fst w = X \/ snd w = X) -> In id (lget (lset (ps_lists st) L (rev kept)) X)).
       { intros X HX. destruct (lit_eq_dec X L) as [E|E].
@@ -182,11 +182,21 @@ Proof.
         - intros id' w Hw HX. rewrite rev_cons_app. apply (C4 id' w Hw HX).
         - intros id' w Hw [E|Hin]; [|apply (C5 id' w Hw Hin)]. subst id'. rewrite Ew in Hw. inversion Hw. subst w.
           apply (Hdone_id st Ew Et). }
-      apply (IH _ _ _ HW' HC' Hnd HL H).
+      apply (IH _ _ _ _ HW' HC' Hnd HL H).
     + destruct (next_unwatched st c other) as [|nl|] eqn:En; [| |discriminate].
       * (* no other literal: assign [other] *)
         pose proof (try_add_cases st other level id Et) as Hta.
-        destruct (try_add st other level id) as [st1|] eqn:Eta; [|discriminate].
+        destruct (try_add st other level id) as [st1|] eqn:Eta.
+        2:{ (* conflict: the walk stops, nothing is marked *)
+            inversion H. subst st' r. clear H. destruct HC as [C1 C2 C3 C4 C5].
+            split; [apply (inv2_transfer st); [intros l Q; eapply (pfalse_ext st); eauto; reflexivity | reflexivity | exact C1]|].
+            split; [exact C2|]. split; [|split; [reflexivity | intro E; discriminate E]].
+            intros id' w Hw. cbn [ps_watch ps_lists] in *.
+            assert (G : forall Y, (fst w = Y \/ snd w = Y) -> In id' (lget (lset (ps_lists st) L (rev kept ++ id :: rest)) Y)).
+            { intros Y HY. destruct (lit_eq_dec Y L) as [E|E].
+              - subst Y. rewrite lget_lset_same. apply (C4 id' w Hw HY).
+              - rewrite lget_lset_other by exact E. apply (C3 id' w Y Hw E HY). }
+            split; apply G; [left | right]; reflexivity. }
         destruct Hta as [Hun Est1]. subst st1.
         set (st1 := mkPS (mkT other level id :: ps_trail st) (ps_pidx st) (ps_watch st) (ps_lists st)) in *.
         assert (HW' : WalkInv db L rest (id :: kept) st1).
@@ -211,7 +221,7 @@ Proof.
             + subst id'. cbn [st1 ps_watch] in Hw. rewrite Ew in Hw. inversion Hw. subst w. apply (Hdone_id st1 Ew Hother1).
             + destruct (C5 id' w Hw Hin) as [G1 G2].
               split; intro E; apply (plit_true_push st (mkT other level id)); auto. }
-        apply (IH _ _ _ HW' HC' Hnd' HL' H).
+        apply (IH _ _ _ _ HW' HC' Hnd' HL' H).
       * (* the watch moves to nl *)
         destruct (next_unwatched_some st c other nl En) as [Hm [Hnl_in [Hnl_ne Hnl_nf]]].
         assert (Hnl_L : nl <> L) by (intro E; subst; congruence).
@@ -281,7 +291,7 @@ Proof.
             assert (Neq : id' <> id) by (intro; subst; contradiction).
             rewrite wget_wset_other in Hw by exact Neq. destruct (C5 id' w Hw Hin) as [G1 G2].
             split; intro E; apply plit_true_spec; [apply plit_true_spec in G1 | apply plit_true_spec in G2]; auto. }
-        apply (IH _ _ _ HW' HC' Hnd HL H).
+        apply (IH _ _ _ _ HW' HC' Hnd HL H).
 Qed.
 
 (* ---------- the loop over the unpropagated entries ---------- *)
@@ -299,15 +309,15 @@ Qed.
 Lemma grows_app base cur : grows db base cur -> exists new, cur = new ++ base.
 Proof. induction 1 as [|cur e Hg [new E] Hr]; [exists []; reflexivity | exists (e :: new); subst; reflexivity]. Qed.
 
-Theorem prop_loop_complete level : forall fuel st st',
+Theorem prop_loop_complete level : forall fuel st st' r,
   WInv db (ps_watch st) (ps_lists st) -> WComp (ps_watch st) (ps_lists st) -> tnodup st -> Inv2 st -> PIdx st ->
-  prop_loop fuel db level st = Some (st', None) ->
-  Inv2 st' /\ WComp (ps_watch st') (ps_lists st') /\ (length (ps_trail st') <= ps_pidx st')%nat /\ tnodup st' /\
-  WInv db (ps_watch st') (ps_lists st').
+  prop_loop fuel db level st = Some (st', r) ->
+  Inv2 st' /\ WComp (ps_watch st') (ps_lists st') /\ PIdx st' /\ (r = None -> (length (ps_trail st') <= ps_pidx st')%nat) /\
+  tnodup st' /\ WInv db (ps_watch st') (ps_lists st').
 Proof.
-  induction fuel as [|f IH]; intros st st' HW HC Hnd HI HP H; cbn [prop_loop] in H; [discriminate|].
+  induction fuel as [|f IH]; intros st st' r HW HC Hnd HI HP H; cbn [prop_loop] in H; [discriminate|].
   destruct (Nat.ltb (ps_pidx st) (length (ps_trail st))) eqn:Elt.
-  2:{ inversion H. subst. apply Nat.ltb_ge in Elt. auto. }
+  2:{ inversion H. subst. apply Nat.ltb_ge in Elt. auto 10. }
   apply Nat.ltb_lt in Elt.
   destruct (nth_error (ps_trail st) (length (ps_trail st) - 1 - ps_pidx st)) as [e|] eqn:Ee; [|discriminate].
   set (L := (tvar e, negb (snd (t_lit e)))) in *.
@@ -321,9 +331,11 @@ Proof.
     - intros id w Hw [E|E]; destruct (HC id w Hw) as [G1 G2]; simpl; [rewrite <- E; exact G1 | rewrite <- E; exact G2].
     - intros id w _ []. }
   destruct (visit_list db L level (lget (ps_lists st) L) [] st) as [[st1 r1]|] eqn:Ev; [|discriminate].
-  destruct r1 as [cf|]; [discriminate|].
   destruct (visit_list_sound db L level _ _ _ _ _ HWalk Hnd HL Ev) as [R1 [R2 [R3 _]]].
-  destruct (visit_list_complete L level _ _ _ _ HWalk HCW Hnd HL Ev) as [Q1 [Q2 [Q3 [Q4 Q5]]]].
+  destruct (visit_list_complete L level _ _ _ _ _ HWalk HCW Hnd HL Ev) as [Q1 [Q2 [Q3 [Q4 Q5]]]].
+  destruct r1 as [cf|].
+  { inversion H. subst st' r. split; [exact Q1|]. split; [exact Q3|]. split; [exact Q2|]. split; [intro E; discriminate E|]. split; assumption. }
+  specialize (Q5 eq_refl).
   destruct (grows_app _ _ R3) as [new Enew].
   assert (He1 : nth_error (rev (ps_trail st1)) (ps_pidx st1) = Some e).
   { rewrite Q4, Enew, rev_app_distr. rewrite nth_error_app1 by (rewrite rev_length; exact Elt).
@@ -343,23 +355,24 @@ Proof.
     - fold L in F1, F2. specialize (G1 F1). rewrite F2 in G1. apply (true_not_false st1 L G1 HL1). }
   assert (HP2 : PIdx st2).
   { unfold PIdx, st2. cbn [ps_pidx ps_trail]. rewrite Q4, Enew, app_length. lia. }
-  apply (IH st2 st' R1 Q3 R2 HI2 HP2 H).
+  apply (IH st2 st' r R1 Q3 R2 HI2 HP2 H).
 Qed.
 
 (* ---------- assertions ---------- *)
 
-Lemma assert_all_complete level : forall l st st',
-  tnodup st -> Inv2 st -> PIdx st -> assert_all level l st = (st', None) ->
+Lemma assert_all_complete level : forall l st st' r,
+  tnodup st -> Inv2 st -> PIdx st -> assert_all level l st = (st', r) ->
   tnodup st' /\ Inv2 st' /\ PIdx st' /\ ps_watch st' = ps_watch st /\ ps_lists st' = ps_lists st /\
-  (forall x, In x l -> plit_true st' (fst x) = true) /\
+  (r = None -> forall x, In x l -> plit_true st' (fst x) = true) /\
   (forall l0, plit_true st l0 = true -> plit_true st' l0 = true).
 Proof.
-  induction l as [|[x id] t IH]; intros st st' Hn HI HP H; simpl in H.
-  - inversion H. subst. repeat split; auto; try (intros x []).
-  - pose proof (try_add_gen st x level id) as Hta. destruct (try_add st x level id) as [st1|] eqn:Eta; [|discriminate].
+  induction l as [|[x id] t IH]; intros st st' r Hn HI HP H; simpl in H.
+  - inversion H. subst. repeat split; auto; try (intros _ x []).
+  - pose proof (try_add_gen st x level id) as Hta. destruct (try_add st x level id) as [st1|] eqn:Eta.
+    2:{ inversion H. subst. repeat split; auto. intro E; discriminate E. }
     destruct Hta as [[E Ht]|[Hun E]].
-    + subst st1. destruct (IH _ _ Hn HI HP H) as [R1 [R2 [R3 [R4 [R5 [R6 R7]]]]]].
-      repeat split; auto. intros y [Ey|Hy]; [subst y; simpl; apply R7; exact Ht | apply R6; exact Hy].
+    + subst st1. destruct (IH _ _ _ Hn HI HP H) as [R1 [R2 [R3 [R4 [R5 [R6 R7]]]]]].
+      repeat split; auto. intros Er y [Ey|Hy]; [subst y; simpl; apply R7; exact Ht | apply (R6 Er); exact Hy].
     + assert (Hn1 : tnodup st1).
       { subst st1. unfold tnodup. simpl. unfold tl_lits. simpl. destruct x as [xv xb]. simpl in *.
         fold (tl_lits (ps_trail st)). unfold pvalue in Hun. rewrite Hun. exact Hn. }
@@ -371,9 +384,9 @@ Proof.
       assert (Hx : plit_true st1 x = true).
       { subst st1. apply plit_true_spec. unfold pvalue. cbn [ps_trail]. unfold tl_lits. simpl.
         destruct x as [xv xb]. simpl. rewrite var_eqb_refl. reflexivity. }
-      destruct (IH _ _ Hn1 HI1 HP1 H) as [R1 [R2 [R3 [R4 [R5 [R6 R7]]]]]].
+      destruct (IH _ _ _ Hn1 HI1 HP1 H) as [R1 [R2 [R3 [R4 [R5 [R6 R7]]]]]].
       subst st1. simpl in R4, R5. repeat split; auto.
-      intros y [Ey|Hy]; [subst y; simpl; apply R7; exact Hx | apply R6; exact Hy].
+      intros Er y [Ey|Hy]; [subst y; simpl; apply R7; exact Hx | apply (R6 Er); exact Hy].
 Qed.
 
 Lemma grows_true base cur l :
@@ -395,6 +408,26 @@ Qed.
 
 (* ---------- propagate ---------- *)
 
+(* whatever the outcome, propagate keeps the invariants *)
+Theorem propagate_keeps level asserts units st st' r :
+  WInv db (ps_watch st) (ps_lists st) -> WComp (ps_watch st) (ps_lists st) -> tnodup st -> Inv2 st -> PIdx st ->
+  propagate db level asserts units st = Some (st', r) ->
+  Inv2 st' /\ WComp (ps_watch st') (ps_lists st') /\ PIdx st'.
+Proof.
+  intros HW HC Hn HI HP H. unfold propagate in H.
+  destruct (assert_all level asserts st) as [st1 r1] eqn:E1.
+  destruct (assert_all_complete level _ _ _ _ Hn HI HP E1) as [A1 [A2 [A3 [A4 [A5 [A6 A7]]]]]].
+  destruct r1 as [c1|].
+  { inversion H. subst. rewrite A4, A5. auto. }
+  destruct (assert_all level units st1) as [st2 r2] eqn:E2.
+  destruct (assert_all_complete level _ _ _ _ A1 A2 A3 E2) as [B1 [B2 [B3 [B4 [B5 [B6 B7]]]]]].
+  destruct r2 as [c2|].
+  { inversion H. subst. rewrite B4, B5, A4, A5. auto. }
+  assert (HW2 : WInv db (ps_watch st2) (ps_lists st2)) by (rewrite B4, B5, A4, A5; exact HW).
+  assert (HC2 : WComp (ps_watch st2) (ps_lists st2)) by (rewrite B4, B5, A4, A5; exact HC).
+  destruct (prop_loop_complete level _ _ _ _ HW2 HC2 B1 B2 B3 H) as [R1 [R2 [R3 _]]]. auto.
+Qed.
+
 Theorem propagate_complete level asserts units st st' :
   WInv db (ps_watch st) (ps_lists st) -> WComp (ps_watch st) (ps_lists st) -> tnodup st -> Inv2 st -> PIdx st ->
   propagate db level asserts units st = Some (st', None) ->
@@ -404,16 +437,16 @@ Theorem propagate_complete level asserts units st st' :
 Proof.
   intros HW HC Hn HI HP H. unfold propagate in H.
   destruct (assert_all level asserts st) as [st1 [c1|]] eqn:E1; [discriminate|].
-  destruct (assert_all_complete level _ _ _ Hn HI HP E1) as [A1 [A2 [A3 [A4 [A5 [A6 A7]]]]]].
+  destruct (assert_all_complete level _ _ _ _ Hn HI HP E1) as [A1 [A2 [A3 [A4 [A5 [A6 A7]]]]]].
   destruct (assert_all level units st1) as [st2 [c2|]] eqn:E2; [discriminate|].
-  destruct (assert_all_complete level _ _ _ A1 A2 A3 E2) as [B1 [B2 [B3 [B4 [B5 [B6 B7]]]]]].
+  destruct (assert_all_complete level _ _ _ _ A1 A2 A3 E2) as [B1 [B2 [B3 [B4 [B5 [B6 B7]]]]]].
   assert (HW2 : WInv db (ps_watch st2) (ps_lists st2)) by (rewrite B4, B5, A4, A5; exact HW).
   assert (HC2 : WComp (ps_watch st2) (ps_lists st2)) by (rewrite B4, B5, A4, A5; exact HC).
-  destruct (prop_loop_complete level _ _ _ HW2 HC2 B1 B2 B3 H) as [R1 [R2 [R3 [R4 R5]]]].
+  destruct (prop_loop_complete level _ _ _ _ HW2 HC2 B1 B2 B3 H) as [R1 [R2 [_ [R3 [R4 R5]]]]]. specialize (R3 eq_refl).
   destruct (prop_loop_sound db level _ _ _ _ HW2 B1 H) as [_ [_ [Hg _]]].
   split; [exact R1|]. split; [exact R2|]. split; [exact R3|]. split; [exact R4|]. split; [exact R5|].
   intros x Hx. assert (Hx2 : plit_true st2 (fst x) = true).
-  { apply in_app_or in Hx. destruct Hx as [Hx|Hx]; [apply B7; apply A6; exact Hx | apply B6; exact Hx]. }
+  { apply in_app_or in Hx. destruct Hx as [Hx|Hx]; [apply B7; apply (A6 eq_refl); exact Hx | apply (B6 eq_refl); exact Hx]. }
   unfold plit_true, pvalue in *. apply (grows_true _ _ _ Hg R4 Hx2).
 Qed.
 
@@ -500,3 +533,6 @@ Proof.
 Qed.
 
 End Comp.
+
+Lemma inv2_mono (XS XS' : N -> Prop) st : (forall id, XS id -> XS' id) -> Inv2 XS st -> Inv2 XS' st.
+Proof. intros Hs HI id w Hw. destruct (HI id w Hw) as [Hx|Hn]; [left; apply Hs; exact Hx | right; exact Hn]. Qed.
